@@ -79,7 +79,10 @@ Record behavior := { b_pre : list cond; b_inv : list cond; b_body : list stmt }.
 Record scenario := { s_pre : list cond; s_inv : list cond; s_limit : option Q;   (* terminate after, in steps *)
                      s_termwhen : list cond; s_monitors : list nat;
                      s_reqs : list nat;           (* `require <temporal formula>` of the setup block: ids into p_reqs *)
-                     s_compose : option (list stmt) }.
+                     s_compose : option (list stmt);
+                     (* `record e as r<id>` / `terminate simulation when c` stated by the setup block of a SUB-scenario
+                        (DynamicScenario._addDynamicRequirement); those of the top-level scenario are p_records / p_termsim *)
+                     s_records : list nat; s_termsim : list (nat * cond) }.
 Record program := { p_behaviors : list behavior; p_monitors : list (list stmt);
                     p_scenarios : list scenario;               (* index 0 = top-level scenario *)
                     p_objects : list (option nat);             (* object i -> its behavior, if any *)
@@ -252,7 +255,8 @@ Definition stops_ok (P : program) (l : list sstate) : bool := forallb (stop_ok P
 Inductive sres :=
 | SCont (st : sstate)                (* _step returned None *)
 | SStopped                           (* _step returned a reason after _stop *)
-| SEndSim                            (* _step returned an _EndSimulationAction *)
+| SEndSim (st : sstate)              (* _step returned an _EndSimulationAction (the instance, stopped: its parent's
+                                        _invokeInner yields at once and keeps it in _subScenarios) *)
 | SBad (o : outcome).                (* rejection / violation / error / stuck *)
 
 Definition rres := (outcome * list event * list sstate)%type.
@@ -282,7 +286,9 @@ Fixpoint step_subs (subs : list sstate) : (list sstate * option sres) * list eve
       match res with
       | SCont s' => let '(l, bad, e2) := step_subs r in (s' :: l, bad, e1 ++ e2)
       | SStopped => let '(l, bad, e2) := step_subs r in (l, bad, e1 ++ e2)
-      | other => (r, Some other, e1)      (* the sub-scenarios not yet stepped are still running *)
+      | SEndSim st' => (st' :: r, Some (SEndSim st'), e1)     (* `yield terminationReason` inside the loop: the list is not
+                                                                 updated; the sub-scenarios not yet stepped are still running *)
+      | other => (r, Some other, e1)
       end
   end.
 
@@ -331,7 +337,7 @@ Definition run_body (m : mode) (ib : bool) (o : owner) (subs : list sstate) (k :
       | MScen _ =>
           let '(subs', bad, e) := step_subs subs in
           match bad with
-          | Some SEndSim => (OYield YEndSim (FScen false :: k'), e, subs')
+          | Some (SEndSim _) => (OYield YEndSim (FScen false :: k'), e, subs')
           | Some (SBad x) => (x, e, subs')
           | Some _ => (OError, e, subs')
           | None =>
@@ -519,7 +525,7 @@ Definition scen_body (st : sstate) : sres * list event :=
             let '(out, e, subs') := rec (MScen sid) false (OScen sid) subs kc in
             match out with
             | OYield YEndScenario k' => stopped (SState sid el (Some k') mons reqs' subs') (er ++ e)
-            | OYield YEndSim k' => stopped_with SEndSim (SState sid el (Some k') mons reqs' subs') (er ++ e)
+            | OYield YEndSim k' => stopped_with (SEndSim (SState sid el (Some k') mons reqs' subs')) (SState sid el (Some k') mons reqs' subs') (er ++ e)
             | OYield _ k' => scen_fin sc sid el mons reqs' (Some k') subs' (er ++ e)
             | ODone => scen_fin sc sid el mons reqs' None subs' (er ++ e)
             | OBlock _ => (SBad OError, er ++ e)
@@ -674,6 +680,32 @@ Fixpoint beh_phase (fuel : nat) (P : program) (w : world) (t : nat) (sched : lis
       end
   end.
 
+(* The per-step traversals of the tree of sub-scenarios (DynamicScenario._evaluateRecordedExprsAt,
+   _checkSimulationTerminationConditions: own statements first, then `for sub in self._subScenarios`, recursively).
+   The lists only hold RUNNING instances: a sub-scenario that stopped was dropped by [step_subs] / [SStopSubs] /
+   [mons_of_subs], so a stopped scenario contributes no record and no condition. *)
+Fixpoint tree_records (P : program) (st : sstate) : list event :=
+  let '(SState sid _ _ _ _ subs) := st in
+  (match nth_error (p_scenarios P) sid with Some sc => map ERecord (s_records sc) | None => [] end) ++
+  (fix go (l : list sstate) : list event := match l with [] => [] | x :: r => tree_records P x ++ go r end) subs.
+Definition subs_records (P : program) (l : list sstate) : list event := flat_map (tree_records P) l.
+Fixpoint tree_termsim (P : program) (st : sstate) : list (nat * cond) :=
+  let '(SState sid _ _ _ _ subs) := st in
+  (match nth_error (p_scenarios P) sid with Some sc => s_termsim sc | None => [] end) ++
+  (fix go (l : list sstate) : list (nat * cond) := match l with [] => [] | x :: r => tree_termsim P x ++ go r end) subs.
+Definition subs_termsim (P : program) (l : list sstate) : list (nat * cond) := flat_map (tree_termsim P) l.
+Definition subs_of (st : sstate) : list sstate := let '(SState _ _ _ _ _ subs) := st in subs.
+Fixpoint check_termsim_l (w : world) (t : nat) (cs : list (nat * cond)) : bool * list event :=
+  match cs with
+  | [] => (false, [])
+  | (i, c) :: r => if eval w t c then (true, [ETermCheck i])
+                   else let '(b, e) := check_termsim_l w t r in (b, ETermCheck i :: e)
+  end.
+(* _checkSimulationTerminationConditions of the top-level scenario: its own conditions, then the running tree *)
+Definition check_all_termsim (P : program) (w : world) (t : nat) (subs : list sstate) : bool * list event :=
+  let '(b, e) := check_termsim w t 0 (p_termsim P) in
+  if b then (true, e) else let '(b2, e2) := check_termsim_l w t (subs_termsim P subs) in (b2, e ++ e2).
+
 Definition nobjects (P : program) : nat := length (p_objects P).
 Definition update_events (P : program) : list event := map EUpdate (seq 0 (nobjects P)).
 
@@ -685,6 +717,27 @@ Definition phase_scen (fuel : nat) (P : program) (w : world) (s : sim) : sres * 
   end.
 Definition phase_record (P : program) (s : sim) : list event :=
   (if Nat.eqb (time s) 0 then map ERecord (p_rec_init P) else []) ++ map ERecord (p_records P).
+(* the `_subScenarios` of the top-level scenario when it stopped in this step (its `_stop` stops them but leaves the
+   list as it is, and recordCurrentState still runs in that last step): the list before the step when the time limit
+   was reached or there is no compose block, else the list the compose block left *)
+Definition residual_subs (fuel : nat) (P : program) (w : world) (s : sim) : list sstate :=
+  match top s with
+  | Some (SState sid el k mons reqs subs) =>
+      match nth_error (p_scenarios P) sid with
+      | None => []
+      | Some sc =>
+          if limit_reached sc el then subs
+          else match k with
+               | None => subs
+               | Some kc => snd (run fuel P w (time s) (MScen sid) false (OScen sid) subs kc)
+               end
+      end
+  | None => []
+  end.
+(* recordCurrentState: the top-level scenario's records, then those of its sub-scenario tree *)
+Definition phase_record_all (fuel : nat) (P : program) (w : world) (s : sim) (sr : sres) : list event :=
+  phase_record P s ++
+  subs_records P (match sr with SCont st => subs_of st | SBad _ => [] | _ => residual_subs (Nat.pred fuel) P w s end).
 
 (* `if maxSteps and self.currentTime >= maxSteps` *)
 Definition step_limit_hit (maxSteps : option nat) (t : nat) : bool :=
@@ -708,7 +761,7 @@ Definition sim_step (qsub : bool) (fuel : nat) (P : program) (w : world) (maxSte
       let reason1 := match sr with SCont _ => false | _ => true end in
       let top1 := match sr with SCont st => Some st | _ => None end in
       (* 2. recordCurrentState() *)
-      let e2 := phase_record P s in
+      let e2 := phase_record_all fuel P w s sr in
       let s2 := {| time := t; top := top1; agents := agents s; traj := S (traj s); actlog := actlog s |} in
       (* 3. dynamicScenario._runMonitors() (a stopped scenario has no monitors left) *)
       let '(mr, e3) := phase_mon qsub fuel P w t top1 in
@@ -722,7 +775,7 @@ Definition sim_step (qsub : bool) (fuel : nat) (P : program) (w : world) (maxSte
           if mreason then (Stop (RDone TMonitor) s3, e1 ++ e2 ++ e3)
           else if reason1 then (Stop (RDone TScenarioComplete) s3, e1 ++ e2 ++ e3)
           else
-            let '(tc, e4) := check_termsim w t 0 (p_termsim P) in
+            let '(tc, e4) := check_all_termsim P w t (match top1 with Some st => subs_of st | None => [] end) in
             if tc then (Stop (RDone TSimCond) s3, e1 ++ e2 ++ e3 ++ e4)
             else if step_limit_hit maxSteps t
             then (Stop (RDone TTimeLimit) s3, e1 ++ e2 ++ e3 ++ e4)
